@@ -6,6 +6,7 @@ import CkbVerif.Lemmas.RichCells
 import CkbVerif.Lemmas.RichReach
 import CkbVerif.Lemmas.RichCellPage
 import CkbVerif.Lemmas.RichHistory
+import CkbVerif.Lemmas.RichShape
 import CkbVerif.Lemmas.IndexerDeep
 import CkbVerif.Lemmas.IndexerDeepQuery
 
@@ -44,6 +45,8 @@ Model: `CkbVerif.Model.IndexerPool` (follows `util/indexer-sync/src/pool.rs`, th
   model: from the store of any chain, after ANY history of appends and rollbacks (any depth, residue
   of abandoned blocks included) whose appended blocks passed the per-append checks and did not run the
   automatic prune, the answer rows are those of the plain replay of the surviving chain.
+* `rich_append_only` — the relational `append` only appends rows and sets `is_spent` flags, for every
+  database and block (the structural half of `Layer`, proved).
 * `rich_follows_chain_any_reorg`, `rich_rollback_any_depth` — relational model: after ANY interleaving
   of appends and rollbacks (rollbacks of ANY depth, never below the start), the database is EXACTLY
   (every relation, row ids and `is_spent` flags included) the database of appending the surviving
@@ -422,6 +425,23 @@ theorem rich_rollback_any_depth (db : DB) (bs : List Block) (h : layersOK db bs)
     show rollbackN (r.length + 1) (r.foldl appendBlock (appendBlock db b)) = db
     rw [rollbackN_succ', ih (appendBlock db b) h.2]
     exact rollback_of_layerCheck h.1
+
+/-- **the relational `append` is append-only up to `is_spent` flags — for EVERY database and EVERY
+block, no hypothesis**: it adds exactly one block row (`max(id)+1`, the block's number and hash), adds
+transaction, input and script rows only at the end of their relations, adds output rows at the end, and
+changes an older output row at most in its `is_spent` column, and only to "spent". This is the
+structural half of `Layer` (the clauses `blocks`, `txs`, `ins`, `scripts` and the shape of `outs`)
+PROVED for `appendBlock` instead of evaluated; the id-freshness / foreign-key clauses of `layerCheckB`
+are still evaluated per appended block (see `rich_follows_chain_any_reorg`). -/
+theorem rich_append_only (db : DB) (b : Block) :
+    (appendBlock db b).blocks = db.blocks ++ [⟨nextId (db.blocks.map (·.id)), b.number, b.hash⟩] ∧
+    (∃ nt, (appendBlock db b).txs = db.txs ++ nt) ∧ (∃ ni, (appendBlock db b).ins = db.ins ++ ni) ∧
+    (∃ ns, (appendBlock db b).scripts = db.scripts ++ ns) ∧
+    ∃ g no, SpentOnly g ∧ (appendBlock db b).outs = db.outs.map g ++ no := by
+  have h := ext_insertTxs b.txs
+    { db with blocks := db.blocks ++ [⟨nextId (db.blocks.map (·.id)), b.number, b.hash⟩] }
+    (nextId (db.blocks.map (·.id))) 0
+  exact ⟨h.blocks, h.txs, h.ins, h.scripts, h.outs⟩
 
 /-! ### LIMIT / CURSOR of the relational `get_cells`, and `get_cells_capacity` -/
 
